@@ -706,6 +706,18 @@ func identityAttrs(n M) M {
 	if len(h) > 0 {
 		out["Hashes"] = sortPairs(h)
 	}
+	// the package identifiers both formats support: purl, CPE 2.2, CPE 2.3 (packages only)
+	ids := []any{}
+	if asInt(n["type"]) == 0 {
+		for _, p := range asList(attrOf(n, "Identifiers")) {
+			if k := asInt(p.([]any)[0]); k >= 1 && k <= 3 {
+				ids = append(ids, p)
+			}
+		}
+	}
+	if len(ids) > 0 {
+		out["Identifiers"] = sortPairs(ids)
+	}
 	return out
 }
 
